@@ -192,8 +192,9 @@ class _TzdbStreamData:
                         return _CachedDateTimeZone._for_zone(_PrecalculatedDateTimeZone._read(reader, id_))
                     case _:
                         raise InvalidPyodaDataError(f"Unknown time zone type {type_.name}")
-        except _DECODING_ERRORS as e:
-            # Values decoded from damaged data fail validation (or lookups) in many places; report them all as invalid data.
+        except (*_DECODING_ERRORS, RuntimeError) as e:
+            # Values decoded from damaged data fail validation (or lookups) in many places, and contradictory recurrence
+            # rules are reported as RuntimeError while the zone is being built; report them all as invalid data.
             raise InvalidPyodaDataError(f"Invalid data for time zone {canonical_id}: {e}") from e
 
     @staticmethod
